@@ -698,6 +698,407 @@ pub fn hostile_scenarios() -> Vec<(&'static str, Prog, Prog)> {
     scenarios
 }
 
+// ---- hostile programs in general (model: Capture/Hostile.v) ----------------------------------------
+
+/// What rendering one misbehaving `Debug` value does.
+#[derive(Clone, Debug)]
+pub enum HEff {
+    /// emits these events, in order, then renders its text
+    Loud(Vec<HEv>),
+    /// panics
+    Bomb,
+}
+#[derive(Clone, Debug)]
+pub struct HEv {
+    pub cs: usize,
+    pub pk: ParentKind,
+    pub vals: ValSet,
+    pub effs: Vec<HEff>,
+}
+/// `prog`: the operations, the misbehaving values being ordinary `Debug` objects with the texts
+/// `hostile#<n>`; `effs[i]`: the effects of the misbehaving values of operation `i`, in rendering order.
+#[derive(Clone, Debug)]
+pub struct HProg {
+    pub prog: Prog,
+    pub effs: Vec<Vec<HEff>>,
+}
+
+fn hostile_text(n: usize) -> String {
+    format!("hostile#{n}")
+}
+
+fn cheff(e: &HEff) -> String {
+    match e {
+        HEff::Bomb => "EBomb".into(),
+        HEff::Loud(evs) => format!(
+            "(ELoud {})",
+            clist(evs.iter(), |ev| format!("(HEv {} {} {} {})", ev.cs, cpk(&ev.pk), cvalset(&ev.vals), clist(ev.effs.iter(), cheff)))
+        ),
+    }
+}
+fn cpk(p: &ParentKind) -> String {
+    match p {
+        ParentKind::Ctx => "PKCtx".into(),
+        ParentKind::Root => "PKRoot".into(),
+        ParentKind::Explicit(k) => format!("(PKExplicit {k})"),
+    }
+}
+pub fn chprog(hp: &HProg) -> String {
+    format!(
+        "(mk_hprog {} {})",
+        clist(hp.prog.sites.iter(), ccs),
+        clist(hp.prog.ops.iter().zip(&hp.effs), |((tid, op), effs)| format!("(mk_hop {tid}%nat {} {})", cop(op), clist(effs.iter(), cheff)))
+    )
+}
+pub fn show_hprog(hp: &HProg) -> serde_json::Value {
+    serde_json::json!({
+        "program": show_prog(&hp.prog),
+        "effects_of_the_values_hostile#n_per_operation_in_rendering_order": hp.effs.iter().map(|e| format!("{e:?}")).collect::<Vec<_>>(),
+    })
+}
+
+/// Decorates a quiet single-threaded program with misbehaving values: on `record`s and events (loud or
+/// bomb), on contextual `new_span`s (loud only: a panic there leaks the span in the Registry).  Inner
+/// events have a contextual parent or none, quiet values, and now and then a misbehaving value of their
+/// own (inert if loud - tracing-core does not deliver an event emitted inside the dispatch of another
+/// event - but a bomb still goes off).  `None`: the program offers no place for one.
+pub fn gen_hostile(r: &mut Rng, base: &Prog) -> Option<HProg> {
+    let event_sites: Vec<usize> = (0..base.sites.len()).filter(|&i| matches!(base.sites[i].kind, CallSiteKind::Event)).collect();
+    if event_sites.is_empty() {
+        return None;
+    }
+    let mut next_text = 0usize;
+    let mut span_sites: Vec<usize> = vec![];
+    let mut prog = base.clone();
+    let mut effs: Vec<Vec<HEff>> = vec![];
+    let mut any = false;
+    // places a hostile value on a free field of `site`; returns false if there is none
+    fn place(r: &mut Rng, nfields: usize, vals: &mut ValSet, text: String) -> Option<usize> {
+        let free: Vec<usize> = (0..nfields).filter(|i| vals.iter().all(|(j, _)| j != i)).collect();
+        // (a value set has at most 32 entries)
+        if free.is_empty() || vals.len() >= 32 {
+            return None;
+        }
+        let field = free[r.below(free.len() as u64) as usize];
+        let pos = r.below(vals.len() as u64 + 1) as usize;
+        vals.insert(pos, (field, Some(Prim::Debug(Obj { display: "-".into(), debug: text }))));
+        Some(pos)
+    }
+    for (_, op) in prog.ops.iter_mut() {
+        let mut mine: Vec<(String, HEff)> = vec![];
+        let (site, vals, bombs_ok): (Option<usize>, Option<&mut ValSet>, bool) = match op {
+            Op::NewSpan(cs, pk, vals) => {
+                span_sites.push(*cs);
+                if matches!(pk, ParentKind::Ctx) { (Some(*cs), Some(vals), false) } else { (None, None, false) }
+            }
+            Op::Record(k, vals) => (Some(span_sites[*k]), Some(vals), true),
+            Op::Event(cs, _, vals) => (Some(*cs), Some(vals), true),
+            _ => (None, None, false),
+        };
+        if let (Some(site), Some(vals)) = (site, vals) {
+            if r.chance(40) {
+                let nfields = base.sites[site].fields.len();
+                for _ in 0..r.range(1, 2) {
+                    let text = hostile_text(next_text);
+                    if place(r, nfields, vals, text.clone()).is_none() {
+                        break;
+                    }
+                    next_text += 1;
+                    let eff = if bombs_ok && r.chance(25) {
+                        HEff::Bomb
+                    } else {
+                        let mut evs = vec![];
+                        for _ in 0..r.range(0, 2) {
+                            let cs = event_sites[r.below(event_sites.len() as u64) as usize];
+                            let pk = if r.chance(75) { ParentKind::Ctx } else { ParentKind::Root };
+                            let mut ivals: ValSet = vec![];
+                            let mut ieffs = vec![];
+                            if r.chance(35) {
+                                let itext = hostile_text(next_text);
+                                if place(r, base.sites[cs].fields.len(), &mut ivals, itext).is_some() {
+                                    next_text += 1;
+                                    ieffs.push(if bombs_ok && r.chance(35) {
+                                        HEff::Bomb
+                                    } else {
+                                        let cs2 = event_sites[r.below(event_sites.len() as u64) as usize];
+                                        HEff::Loud(vec![HEv { cs: cs2, pk: ParentKind::Ctx, vals: vec![], effs: vec![] }])
+                                    });
+                                }
+                            }
+                            evs.push(HEv { cs, pk, vals: ivals, effs: ieffs });
+                        }
+                        HEff::Loud(evs)
+                    };
+                    mine.push((text, eff));
+                    any = true;
+                }
+            }
+            // rendering order = order of the values in the value set
+            let order: Vec<String> = vals
+                .iter()
+                .filter_map(|(_, p)| match p {
+                    Some(Prim::Debug(o)) if o.debug.starts_with("hostile#") => Some(o.debug.clone()),
+                    _ => None,
+                })
+                .collect();
+            effs.push(order.iter().map(|t| mine.iter().find(|(x, _)| x == t).expect("effect of a hostile value").1.clone()).collect());
+        } else {
+            effs.push(vec![]);
+        }
+    }
+    any.then_some(HProg { prog, effs })
+}
+
+/// text -> effect, for every misbehaving value of the program (inner ones included)
+fn hostile_table(hp: &HProg) -> std::collections::HashMap<String, HEff> {
+    fn texts(vals: &ValSet) -> Vec<String> {
+        vals.iter()
+            .filter_map(|(_, p)| match p {
+                Some(Prim::Debug(o)) if o.debug.starts_with("hostile#") => Some(o.debug.clone()),
+                _ => None,
+            })
+            .collect()
+    }
+    fn walk(table: &mut std::collections::HashMap<String, HEff>, vals: &ValSet, effs: &[HEff]) {
+        for (t, e) in texts(vals).into_iter().zip(effs) {
+            if let HEff::Loud(evs) = e {
+                for ev in evs {
+                    walk(table, &ev.vals, &ev.effs);
+                }
+            }
+            table.insert(t, e.clone());
+        }
+    }
+    let mut table = Default::default();
+    for ((_, op), effs) in hp.prog.ops.iter().zip(&hp.effs) {
+        if let Op::NewSpan(_, _, vals) | Op::Record(_, vals) | Op::Event(_, _, vals) = op {
+            walk(&mut table, vals, effs);
+        }
+    }
+    table
+}
+
+/// Executes a hostile program: the guest catches the panics of its own `Debug` impls at the operation
+/// that rendered them; spans with misbehaving attributes are created through an explicit dispatcher
+/// handle (`Span::new_with`), the others as the macros do.
+pub fn exec_hprog(hp: &HProg) -> (ExecResult, Vec<u64>) {
+    let sites = make_sites(&hp.prog.sites);
+    let table = std::rc::Rc::new(hostile_table(hp));
+    let hook_sites = sites.clone();
+    let hook_table = table.clone();
+    let hook: std::rc::Rc<dyn Fn(&str)> = std::rc::Rc::new(move |text: &str| match hook_table.get(text) {
+        None => {}
+        Some(HEff::Bomb) => std::panic::resume_unwind(Box::new("guest Debug impl panics")),
+        Some(HEff::Loud(evs)) => {
+            for ev in evs {
+                let site = hook_sites[ev.cs];
+                if site.is_enabled() {
+                    let meta = site.metadata();
+                    with_value_set(site, &ev.vals, |vs| match ev.pk {
+                        ParentKind::Ctx => tracing::Event::dispatch(meta, vs),
+                        _ => tracing::Event::child_of(None, meta, vs),
+                    });
+                }
+            }
+        }
+    });
+    DEBUG_HOOK.with(|h| *h.borrow_mut() = Some(hook));
+    // every call site is registered up front.  tracing-core computes the cached interest of a call site
+    // at its first use, from the dispatchers it can reach at that moment; a call site first used inside
+    // the dispatch of another event reaches none (re-entrancy guard of `get_default`) and is cached as
+    // "never" - a property of tracing-core that the model of the capture layer does not describe.
+    for s in &sites {
+        let _ = s.interest();
+    }
+    let mut r = ExecResult::default();
+    let mut raws = vec![];
+    for ((_, op), effs) in hp.prog.ops.iter().zip(&hp.effs) {
+        match op {
+            Op::NewSpan(cs, ParentKind::Ctx, vals) if !effs.is_empty() => {
+                let site = sites[*cs];
+                let span = if site.is_enabled() {
+                    let dispatch = tracing::dispatcher::get_default(tracing::Dispatch::clone);
+                    with_value_set(site, vals, |vs| tracing::Span::new_with(site.metadata(), vs, &dispatch))
+                } else {
+                    tracing::Span::none()
+                };
+                r.enabled.push(span.id().is_some());
+                r.span_sites.push(*cs);
+                r.handles.push(vec![span]);
+            }
+            _ if !effs.is_empty() => {
+                let _ = catch_unwind(AssertUnwindSafe(|| exec_op(&mut r, &sites, op)));
+            }
+            _ => exec_op(&mut r, &sites, op),
+        }
+        r.ops_run += 1;
+        if let Op::NewSpan(..) = op {
+            let id = r.handles.last().and_then(|hs| hs.first()).and_then(tracing::Span::id);
+            raws.push(id.map_or(0, |i| i.into_u64()));
+        }
+    }
+    DEBUG_HOOK.with(|h| *h.borrow_mut() = None);
+    (r, raws)
+}
+
+/// `n` generated programs, each decorated with misbehaving values; returns the next free case index
+pub fn hostile_random_cases(sink: &mut Sink, o: &Opts, stream: &str, mut idx: u64, n: u64, extra_layers: bool) -> u64 {
+    let cfg = GenCfg::balanced("c05h");
+    for _ in 0..n {
+        if sink.wants(idx) {
+            let mut r = Rng::for_case(o.seed, stream, idx);
+            let base = gen_prog(&mut r, &cfg);
+            match gen_hostile(&mut r, &base) {
+                Some(hp) => hostile_random_case(sink, idx, "random-hostile", &hp, extra_layers),
+                None => sink.bump("hostile:no-place-for-a-misbehaving-value"),
+            }
+        }
+        idx += 1;
+    }
+    idx
+}
+
+/// The quiet program a hostile one must be captured as (harness-side twin of `flatten` in
+/// Capture/Hostile.v; used only by the self-test of the generator, never for a verdict).
+pub fn flatten_hprog(hp: &HProg) -> Prog {
+    let mut ops = vec![];
+    for ((tid, op), effs) in hp.prog.ops.iter().zip(&hp.effs) {
+        let guard = matches!(op, Op::Event(..));
+        let mut bombed = false;
+        'effs: for e in effs {
+            match e {
+                HEff::Bomb => {
+                    bombed = true;
+                    break 'effs;
+                }
+                HEff::Loud(_) if guard => {}
+                HEff::Loud(evs) => {
+                    for ev in evs {
+                        if ev.effs.iter().any(|x| matches!(x, HEff::Bomb)) {
+                            bombed = true;
+                            break 'effs;
+                        }
+                        ops.push((*tid, Op::Event(ev.cs, ev.pk, ev.vals.clone())));
+                    }
+                }
+            }
+        }
+        if !bombed {
+            ops.push((*tid, op.clone()));
+        }
+    }
+    Prog { sites: hp.prog.sites.clone(), ops }
+}
+
+pub fn hostile_selftest(seed: u64, n: u64) {
+    let cfg = GenCfg::balanced("c05h");
+    let (mut made, mut differ) = (0, 0);
+    for i in 0..n {
+        let mut r = Rng::for_case(seed, "C05-hostile-selftest", i);
+        let base = gen_prog(&mut r, &cfg);
+        let Some(hp) = gen_hostile(&mut r, &base) else { continue };
+        made += 1;
+        let storage = SharedStorage::default();
+        let run = catch_unwind(AssertUnwindSafe(|| {
+            tracing::subscriber::with_default(Registry::default().with(CaptureLayer::new(&storage)), || {
+                let (r, raws) = exec_hprog(&hp);
+                let dump = dump_shared(&storage);
+                drop(r);
+                (dump.map(|d| d.0), raws)
+            })
+        }));
+        DEBUG_HOOK.with(|h| *h.borrow_mut() = None);
+        let (hdump, hraws) = run.unwrap_or((None, vec![]));
+        let quiet = flatten_hprog(&hp);
+        let (qdump, qraws, ..) = run_capture(&quiet, &FilterSpec::Unfiltered);
+        if hdump != qdump || hraws != qraws {
+            differ += 1;
+            if hp.prog.ops.len() <= 8 {
+                eprintln!("DIFFER case {i}:");
+                for ((_, op), e) in hp.prog.ops.iter().zip(&hp.effs) {
+                    eprintln!("   {op:?}   {e:?}");
+                }
+                eprintln!(" sites kinds/levels: {:?}", hp.prog.sites.iter().map(|s| (format!("{:?}", s.kind), format!("{:?}", s.level), s.fields.len())).collect::<Vec<_>>());
+                eprintln!(" hdump {:?}\n qdump {:?}\n raws {:?} {:?}", hdump, qdump, hraws, qraws);
+            }
+        }
+    }
+    eprintln!("hostile selftest: {made} programs, {differ} differ");
+}
+
+static HANGS: std::sync::atomic::AtomicUsize = std::sync::atomic::AtomicUsize::new(0);
+
+/// A random hostile program under one capture layer that captures everything (plus whatever `wrap` puts
+/// around it), on a thread of its own under a watchdog; judged by `judge_hostile`: the lock-level model of
+/// the layer's callbacks, and the specification applied to the flattened program.
+pub fn hostile_random_case(sink: &mut Sink, idx: u64, kind: &str, hp: &HProg, extra_layers: bool) {
+    if !sink.wants(idx) {
+        return;
+    }
+    // a guest that hangs costs the whole watchdog period (and leaks its thread): after three of them the
+    // stream stops; three cases with a callback that never returned are verdict enough
+    if HANGS.load(std::sync::atomic::Ordering::SeqCst) >= 3 {
+        sink.bump("hostile:not-run-after-three-hangs");
+        return;
+    }
+    let h = hp.clone();
+    let (tx, rx) = std::sync::mpsc::channel();
+    std::thread::spawn(move || {
+        let storage = SharedStorage::default();
+        let run = catch_unwind(AssertUnwindSafe(|| {
+            let go = || {
+                let (r, raws) = exec_hprog(&h);
+                let dump = dump_shared(&storage);
+                drop(r);
+                (dump, raws)
+            };
+            if extra_layers {
+                let subscriber = Registry::default()
+                    .with(tracing_subscriber::layer::Identity::new())
+                    .with(CaptureLayer::new(&storage))
+                    .with(tracing_subscriber::layer::Identity::new());
+                tracing::subscriber::with_default(subscriber, go)
+            } else {
+                tracing::subscriber::with_default(Registry::default().with(CaptureLayer::new(&storage)), go)
+            }
+        }));
+        DEBUG_HOOK.with(|h| *h.borrow_mut() = None);
+        let poisoned = dump_shared(&storage).is_none();
+        let out = match run {
+            Ok((Some((text, ns, ne)), raws)) if !poisoned => (Some(text), raws, ns + ne),
+            Ok((_, raws)) => (None, raws, 0),
+            Err(_) => (None, vec![], 0),
+        };
+        let _ = tx.send(out);
+    });
+    let out = rx.recv_timeout(std::time::Duration::from_secs(20)).ok();
+    if out.is_none() {
+        HANGS.fetch_add(1, std::sync::atomic::Ordering::SeqCst);
+    }
+    sink.bump(match &out {
+        None => "hostile:callback-never-returned",
+        Some((None, ..)) => "hostile:panic-escaped-or-storage-poisoned",
+        Some(_) => "hostile:completed",
+    });
+    let n_bombs = hp.effs.iter().flatten().filter(|e| matches!(e, HEff::Bomb)).count();
+    let n_loud = hp.effs.iter().flatten().filter(|e| matches!(e, HEff::Loud(evs) if !evs.is_empty())).count();
+    sink.bump(if n_bombs > 0 && n_loud > 0 { "hostile:bombs-and-loud" } else if n_bombs > 0 { "hostile:bombs" } else if n_loud > 0 { "hostile:loud" } else { "hostile:silent-effects" });
+    let (dump, raws, items) = out.unwrap_or((None, vec![], 0));
+    let key = format!("hostile-random {}", chprog(hp));
+    intern_begin();
+    let term = format!(
+        "judge_hostile {} {} {}",
+        chprog(hp),
+        cids(&raws),
+        match &dump {
+            Some(d) => format!("(Some {d})"),
+            None => "None".into(),
+        }
+    );
+    let judge = intern_wrap(&term);
+    sink.case(idx, kind, &judge, &key, items > 0, || serde_json::json!({ "hostile_program": show_hprog(hp), "storage": dump }));
+}
+
 /// One capture layer that captures everything; the hostile run happens on a thread of its own under a
 /// watchdog (a callback that re-enters the layer under its own lock never returns).  Both runs are
 /// judged against the quiet program; the case gets the worse verdict.
@@ -1070,7 +1471,11 @@ pub fn exhaustive(len: usize) -> Vec<Prog> {
 // ---- driver --------------------------------------------------------------------------------------
 
 pub fn run(o: &Opts) {
-    let mut sink = Sink::new(&o.out, o.shards, "Judge.C05", o.only.clone());
+    if std::env::var("TT_HOSTILE_SELFTEST").is_ok() {
+        hostile_selftest(o.seed, 3000);
+        return;
+    }
+    let mut sink = Sink::new(&o.out, o.shards, "Judge.C05 Judge.Hostile", o.only.clone());
     let mut idx = 0u64;
 
     selftest();
@@ -1121,6 +1526,10 @@ pub fn run(o: &Opts) {
             idx += 1;
         }
     }
+
+    // 4. random hostile programs (values that emit events or panic while the layer renders them)
+    idx = hostile_random_cases(&mut sink, o, "C05-hostile", idx, if o.thorough { 20_000 } else { 300 } * o.scale, false);
+    let _ = idx;
 
     sink.finish(
         "one case = one guest program executed with the real tracing API, either under Registry + a recording layer \
